@@ -2172,6 +2172,11 @@ class unyt_array(np.ndarray):
     def __array_finalize__(self, obj):
         self.units = getattr(obj, "units", NULL_UNIT)
         self.name = getattr(obj, "name", None)
+        if self.size > 1 and isinstance(self, unyt_quantity):
+            # NumPy creates results from a template of the operand's class
+            # (np.repeat, ndarray.repeat, ...): a result with more than one
+            # element is never a unyt_quantity
+            self.__class__ = unyt_array
 
     def __pos__(self):
         """Posify the data."""
